@@ -158,6 +158,8 @@ class Record(_Record):
     @classmethod
     def to_bytes(cls, record: 'Record') -> tuple[int, bytes]:
         segments = list(zip(*(f.type.to_bytes(record.get_field_value(f.name)) for f in cls.Fields)))
+        if not segments:
+            return 0, b''
         return sum(segments[0]), b''.join(segments[1])
 
 
